@@ -47,9 +47,9 @@ mod allocwatch {
             return;
         }
         let bt = std::backtrace::Backtrace::force_capture().to_string();
-        let mut frames = bt.lines().map(str::trim).filter(|l| !l.starts_with("at "));
+        let mut frames = bt.lines().map(str::trim).filter(|l| !l.starts_with("at ") && !l.contains("allocwatch"));
         let lib = frames.find(|l| l.contains("flacenc::")).map(|l| l.splitn(2, ": ").nth(1).unwrap_or(l).to_string());
-        let by_harness_first = bt.lines().map(str::trim).filter(|l| !l.starts_with("at ")).find(|l| l.contains("flacenc::") || l.contains("fvmon::")).map_or(false, |l| l.contains("fvmon::"));
+        let by_harness_first = bt.lines().map(str::trim).filter(|l| !l.starts_with("at ") && !l.contains("allocwatch")).find(|l| l.contains("flacenc::") || l.contains("fvmon::")).map_or(false, |l| l.contains("fvmon::"));
         eprintln!(
             "HUGE-ALLOC bytes={size} requested_by={} first_library_frame={}",
             if lib.is_some() && !by_harness_first { "library" } else { "harness" },
